@@ -41,6 +41,14 @@ def run(ctx):
     stats3 = tc.correspondence_chunked(ctx, binp, runner, ["stem"], ctx.seed, k, "N",
                                        "nibble-path primitives", with_spec=False)
     ctx.notes["stem_cases"] = stats3
+    # the arena model (level C): observations AND the sizes of the nodes/entries/values/generations vectors after
+    # every operation must agree with the implementation; the runner also checks copy-on-write (nothing below the
+    # checkpoint of the current generation changes) after every operation of the model
+    ka = 2000 if ctx.quick else 40000
+    stats4 = tc.correspondence_chunked(ctx, binp, runner, ["arena"], ctx.seed, ka, "A",
+                                       "arena history (observations + arena sizes)", with_spec=False)
+    ctx.notes["arena_histories"] = stats4
+    ctx.notes["arena_vs_tree_model"] = tc.arena_refines_model(ctx, binp, runner, ctx.seed + 31, 1000 if ctx.quick else 20000)
     rc, out = c.run_bin(binp, ["directed"], timeout=300)
     dd, _, _ = tc.parse_lines(out)
     obs = {}
